@@ -190,6 +190,20 @@ def base_specs(tier):
         ['diff', b'x\r\n', 'binary', None, None]], 'utf-16')
     out.append({'parse': fa})
     out.append({'parse': fb})
+    # scale: deep metadata, large content, many files / changes
+    deep = {'leaf': [1, 'two', None]}
+    for i in range(9):
+        deep = {'level-%d' % i: deep, 'l': [deep, {'k%d' % i: i}]}
+    big = {'_big': True, 'main': {'meta': {'deep': deep, 'wide': {('k%04d' % i): 'v' * 40
+                                                    for i in range(60)}},
+                    'preamble': 'line\n' * 300},
+           'changes': [{'attrs': {'meta': {'id': 'c%d' % c}},
+                        'files': [{'meta': {'path': 'f%d-%d' % (c, f)},
+                                   'diff': (b'@@ -1 +1 @@\n-a\n+b\n' * 500
+                                            if f == 2 else SAMPLE_DIFF)}
+                                  for f in range(4)]}
+                       for c in range(3)]}
+    out.append(big)
     if tier == 'thorough':
         for m in mains:
             for c1 in changes:
@@ -506,6 +520,10 @@ def run_unit(unit, tier):
             acc.violation(key, msg, payload)
         acc.outcome('ok' if not viols else 'violation')
 
+    if kindu == 'assign' and specs[i].get('_big'):
+        # the large tree takes part in the equality passes only (every
+        # assignment x candidate on 300 sections would rebuild it 10^5 times)
+        return acc
     if kindu == 'assign':
         sp = specs[i]
         tree = build_tree(sp)
@@ -538,6 +556,9 @@ def run_unit(unit, tier):
     elif kindu == 'eq-pairs':
         a_spec = specs[i]
         for j, b_spec in enumerate(specs):
+            if (a_spec.get('_big') or b_spec.get('_big')) and \
+                    not (i == j or j < 3 or i < 3):
+                continue
             a, b = build_tree(a_spec), build_tree(b_spec)
             viols = eq_checks(a, b, 'trees %d,%d' % (i, j))
             rec(viols, {'kind': 'eq-pair', 'a': to_jsonable(a_spec),
